@@ -368,6 +368,15 @@ Theorem C20_rand_result_reading : forall (A : Type) (a : A) (rest : stream),
   of_rres (@ROutOfStream A) = Done None /\ of_rres (@ROutOfFuel A) = NoFuel.
 Proof. exact (fun A a rest => conj eq_refl (conj eq_refl (conj eq_refl eq_refl))). Qed.
 Print Assumptions C20_rand_result_reading.
+(* $BUint::widening_mul (src/buint/bigint_helpers.rs: two nested `while` loops over `low` / `high`), the `v.widening_mul(range)` of the
+   rejection loop, REGENERATED on every run (RandGen.widening_mul): equal to the model's Mul.U_widening_mul (one 2N-digit accumulator) for
+   every digit width, digit count, well-formed operands and fuel > N - in particular no index out of bounds, no `usize` underflow. *)
+From Bnum.Proofs Require Import RandGenTieMul.
+Theorem C20_rand_widening_mul_rs_matches_model : forall (w : Z) (n : nat) (a b : list Z), 0 < w -> wf w n a -> wf w n b ->
+  forall fuel : nat, (S n <= fuel)%nat ->
+  RandGen.widening_mul w (Z.of_nat n) fuel a b = Done (U_widening_mul w a b).
+Proof. exact rand_widening_mul. Qed.
+Print Assumptions C20_rand_widening_mul_rs_matches_model.
 Theorem C20_rand_rs_matches_model : forall (dbg : bool) (w : Z) (n fuel : nat) (low high : list Z) (u : uniform) (s : stream),
   length low = n -> length high = n -> length (u_low u) = n -> length (u_range u) = n ->
   let N := Z.of_nat n in
